@@ -1,7 +1,7 @@
 import numpy as np
 
-from ..network import Network
-from ..elements import is_ideal_voltage_source, is_current_source
+from ..network import Network, Branch
+from ..elements import is_ideal_voltage_source, is_current_source, current_source
 from . import label_mapping as map
 from .. import transformers as trf
 import itertools
@@ -83,15 +83,22 @@ def open_circuit_impedance(network: Network, node1: str, node2: str, node_index_
         return 0
     if any([is_ideal_voltage_source(b.element) for b in network.branches_between(node1, node2)]):
         return 0
-    if network.is_zero_node(node1):
-        node1, node2 = node2, node1
-    network = trf.switch_ground_node(network=network, new_ground=node2)
-    Y = node_admittance_matrix(network, node_index_mapper=node_index_mapper)
-    Y = np.delete(Y, np.where(~Y.any(axis=0))[0], axis=1)
-    Y = np.delete(Y, np.where(~Y.any(axis=1))[0], axis=0)
-    Z = np.linalg.inv(Y)
+    network = trf.open_circuitify_current_sources(trf.short_circuitify_voltage_sources(network))
+    probe_id = 'probe'
+    while probe_id in network.branch_ids:
+        probe_id += '_'
+    network = Network(network.branches + [Branch(node2, node1, current_source(probe_id, 1))], node_zero_label=node2)
+    A = nodal_analysis_coefficient_matrix(network, node_mapper=node_index_mapper)
+    b = nodal_analysis_constants_vector(network, node_mapper=node_index_mapper)
+    connected = A.any(axis=1)
     i1 = node_index_mapper(network)[node1]
-    return Z[i1][i1]
+    if not connected[i1]:
+        return np.inf
+    try:
+        x = np.linalg.solve(A[np.ix_(connected, connected)], b[connected])
+    except np.linalg.LinAlgError:
+        return np.inf
+    return x[np.count_nonzero(connected[:i1])]
 
 def element_impedance(network: Network, element: str, node_index_mapper: map.NetworkMapper = map.default_node_mapper) -> complex:
     return open_circuit_impedance(
